@@ -122,7 +122,7 @@ def oracle(rng, tier, reasons):
         if isinstance(r, dict):
             continue
         for q in r:
-            bad = {k: q[k] for k in ('mass', 'momentum', 'energy', 'eos', 'sound') if not (q[k] <= (1e-9 if k in ('eos', 'sound') else 1e-5))}
+            bad = {k: q[k] for k in ('mass', 'momentum', 'energy', 'eos', 'sound') if not (q[k] <= (1e-9 if k in ('eos', 'sound') else 1e-4))}
             if bad:
                 fails.append({'solver': 'EscapeOfHEProducts', 'params': c['params'], 'x': q['x'], 't': q['t'], 'region': q['region'], 'normalised_residuals': bad,
                               'why': 'finite-difference residual of the planar Euler equations / EOS inside a region'})
